@@ -50,7 +50,7 @@ initadd(struct initparser *p, struct init *new)
 		if (new->end * 8 - new->bits.after <= old->start * 8 + old->bits.before)
 			break;
 		/* replace any initializers that `new` covers */
-		if (old->end * 8 - old->bits.after <= new->end * 8 - new->bits.after) {
+		if (new->start * 8 + new->bits.before <= old->start * 8 + old->bits.before && old->end * 8 - old->bits.after <= new->end * 8 - new->bits.after) {
 			do old = old->next;
 			while (old && old->end * 8 - old->bits.after <= new->end * 8 - new->bits.after);
 			break;
